@@ -5,6 +5,7 @@ from collections.abc import Sequence
 import copy
 import datetime
 import enum
+import os
 import pickle
 import threading
 from typing import Any
@@ -459,7 +460,9 @@ class JournalStorageReplayResult:
 
     @property
     def worker_id(self) -> str:
-        return self._worker_id_prefix + str(threading.get_ident())
+        # The process id distinguishes processes that inherited this object through ``fork()``:
+        # they share the prefix and, for their main threads, the thread identifier.
+        return f"{self._worker_id_prefix}{os.getpid()}-{threading.get_ident()}"
 
     @property
     def owned_trial_id(self) -> int | None:
